@@ -1,8 +1,9 @@
 /-
 C01 — model of the implementation: `compE`/`compS` transliterate
 compile/compile.go (`Expr`, `Stmt(*ast.Assign, *ast.AugAssign, *ast.ExprStmt)`,
+`*ast.Delete`, `*ast.FunctionDef`), `compileFunc`, `makeClosure` (no free variables),
 `tupleOrList`, `subscript`, `slice`, `buildSlice`, `callHelper`, `NameOp` at
-module level) and `exec`/`run` transliterate vm/eval.go (`do_*` for the opcodes
+module level and in function scope) and `exec`/`run` transliterate vm/eval.go (`do_*` for the opcodes
 the fragment uses, the fetch loop of `RunFrame`).
 
 Jump targets: compile.go emits `Label`s that the assembler resolves to byte
@@ -15,9 +16,12 @@ namespace GPy.C01
 
 inductive Instr
   | LOAD_CONST (c : Const)
-  | LOAD_CODE (body : Expr)                 -- LOAD_CONST <code object of a lambda>
+  | LOAD_CODE (name : String) (sg : Sig) (body : Expr)   -- LOAD_CONST <code object of a lambda / def>
   | LOAD_NAME (n : String)
   | STORE_NAME (n : String)
+  | DELETE_NAME (n : String)
+  | LOAD_FAST (n : String)                  -- function scope: a parameter
+  | LOAD_GLOBAL (n : String)                -- function scope: any other name
   | BINARY (op : BinOp)                     -- BINARY_ADD …
   | INPLACE (op : BinOp)                    -- INPLACE_ADD …
   | UNARY (op : UnOp)                       -- UNARY_NEGATIVE …
@@ -27,14 +31,17 @@ inductive Instr
   | POP_JUMP_IF_FALSE (t : Nat)
   | JUMP_FORWARD (t : Nat)
   | POP_TOP | DUP_TOP | DUP_TOP_TWO | ROT_TWO | ROT_THREE
-  | BINARY_SUBSCR | STORE_SUBSCR
-  | LOAD_ATTR (n : String) | STORE_ATTR (n : String)
+  | BINARY_SUBSCR | STORE_SUBSCR | DELETE_SUBSCR
+  | LOAD_ATTR (n : String) | STORE_ATTR (n : String) | DELETE_ATTR (n : String)
   | CALL_FUNCTION (n : Nat)
+  /-- CALL_FUNCTION / _VAR / _KW / _VAR_KW with operand `na + (nk << 8)` -/
+  | CALL_FUNCTION_EX (na nk : Nat) (star dstar : Bool)
   | BUILD_TUPLE (n : Nat) | BUILD_LIST (n : Nat) | BUILD_SET (n : Nat)
   | BUILD_SLICE (n : Nat)
   | BUILD_MAP (n : Nat) | STORE_MAP
-  | MAKE_FUNCTION (n : Nat)
+  | MAKE_FUNCTION (np nk : Nat)              -- operand `np + (nk << 8)`
   | UNPACK_SEQUENCE (n : Nat)
+  | UNPACK_EX (before after : Nat)           -- operand `before + (after << 8)`
   | RETURN_VALUE
 
 /-! ## compile.go -/
@@ -59,7 +66,9 @@ def size : Expr → Nat
   | .list es => sizes es + 1
   | .set es => sizes es + 1
   | .dict kvs => 1 + sizeKVs kvs
-  | .lambda0 _ => 3
+  | .lambda _ ds kds _ => sizes ds + sizeKWs kds + 3
+  | .slice3 lo hi st => size lo + size hi + size st + 1
+  | .callx f args kws star dstar => size f + sizes args + sizeKWs kws + sizeOpt star + sizeOpt dstar + 1
 def sizes : Exprs → Nat
   | .nil => 0
   | .cons e es => size e + sizes es
@@ -72,6 +81,12 @@ def sizeTail : CmpTail → Nat
 def sizeKVs : KVs → Nat
   | .nil => 0
   | .cons k v rest => size v + size k + 1 + sizeKVs rest
+def sizeKWs : KWs → Nat
+  | .nil => 0
+  | .cons _ e rest => 1 + size e + sizeKWs rest
+def sizeOpt : OptE → Nat
+  | .none => 0
+  | .some e => size e
 end
 
 mutual
@@ -110,7 +125,20 @@ def compE : Expr → Nat → List Instr
   | .list es, pc => compEs es pc ++ [.BUILD_LIST es.length]
   | .set es, pc => compEs es pc ++ [.BUILD_SET es.length]
   | .dict kvs, pc => [.BUILD_MAP kvs.length] ++ compKVs kvs (pc + 1)
-  | .lambda0 body, _ => [.LOAD_CODE body, .LOAD_CONST (.str "<lambda>"), .MAKE_FUNCTION 0]
+  | .lambda sg ds kds body, pc =>
+      -- compileFunc: Exprs(Args.Defaults); for each kw-only default { LoadConst(name); Expr(default) };
+      -- makeClosure: LoadConst(code); LoadConst(qualname); MAKE_FUNCTION posdefaults + kwdefaults<<8
+      compEs ds pc ++ compKWs kds (pc + sizes ds)
+        ++ [.LOAD_CODE "<lambda>" sg body, .LOAD_CONST (.str "<lambda>"), .MAKE_FUNCTION ds.length kds.length]
+  | .slice3 lo hi st, pc =>
+      -- buildSlice: Expr(Lower); Expr(Upper); Expr(Step); BUILD_SLICE 3
+      compE lo pc ++ compE hi (pc + size lo) ++ compE st (pc + size lo + size hi) ++ [.BUILD_SLICE 3]
+  | .callx f args kws star dstar, pc =>
+      -- Expr(Func); callHelper: Args; for kw { LoadConst(kw.Arg); Expr(kw.Value) }; Starargs; Kwargs; op
+      compE f pc ++ compEs args (pc + size f) ++ compKWs kws (pc + size f + sizes args)
+        ++ compOpt star (pc + size f + sizes args + sizeKWs kws)
+        ++ compOpt dstar (pc + size f + sizes args + sizeKWs kws + sizeOpt star)
+        ++ [.CALL_FUNCTION_EX args.length kws.length star.isSome dstar.isSome]
 /-- `compiler.Exprs` -/
 def compEs : Exprs → Nat → List Instr
   | .nil, _ => []
@@ -132,6 +160,13 @@ def compKVs : KVs → Nat → List Instr
   | .nil, _ => []
   | .cons k v rest, pc =>
       compE v pc ++ compE k (pc + size v) ++ [.STORE_MAP] ++ compKVs rest (pc + size v + size k + 1)
+/-- `LoadConst(py.String(name)); Expr(value)` per pair -/
+def compKWs : KWs → Nat → List Instr
+  | .nil, _ => []
+  | .cons n e rest, pc => .LOAD_CONST (.str n) :: (compE e (pc + 1) ++ compKWs rest (pc + 1 + size e))
+def compOpt : OptE → Nat → List Instr
+  | .none, _ => []
+  | .some e, pc => compE e pc
 end
 
 mutual
@@ -140,6 +175,7 @@ def sizeT : Target → Nat
   | .subscr a i => size a + size i + 1
   | .attr a _ => size a + 1
   | .tuple ts => 1 + sizeTs ts
+  | .star b t a => 1 + sizeTs b + sizeT t + sizeTs a
 def sizeTs : Targets → Nat
   | .nil => 0
   | .cons t ts => sizeT t + sizeTs ts
@@ -152,9 +188,37 @@ def compT : Target → Nat → List Instr
   | .subscr a i, pc => compE a pc ++ compE i (pc + size a) ++ [.STORE_SUBSCR]
   | .attr a n, pc => compE a pc ++ [.STORE_ATTR n]
   | .tuple ts, pc => .UNPACK_SEQUENCE ts.length :: compTs ts (pc + 1)
+  | .star b t a, pc =>
+      -- tupleOrList(Store): UNPACK_EX i + (n-i-1)<<8; elts[i] = starred.Value; Exprs(elts)
+      .UNPACK_EX b.length a.length
+        :: (compTs b (pc + 1) ++ compT t (pc + 1 + sizeTs b) ++ compTs a (pc + 1 + sizeTs b + sizeT t))
 def compTs : Targets → Nat → List Instr
   | .nil, _ => []
   | .cons t ts, pc => compT t pc ++ compTs ts (pc + sizeT t)
+end
+
+mutual
+def sizeD : DelTarget → Nat
+  | .name _ => 1
+  | .subscr a i => size a + size i + 1
+  | .attr a _ => size a + 1
+  | .tuple ts => sizeDs ts
+def sizeDs : DelTargets → Nat
+  | .nil => 0
+  | .cons t ts => sizeD t + sizeDs ts
+end
+
+mutual
+/-- `compiler.Expr` in Del context (`case *ast.Delete: c.Exprs(node.Targets)`); a tuple in
+Del context emits just its elements -/
+def compD : DelTarget → Nat → List Instr
+  | .name n, _ => [.DELETE_NAME n]
+  | .subscr a i, pc => compE a pc ++ compE i (pc + size a) ++ [.DELETE_SUBSCR]
+  | .attr a n, pc => compE a pc ++ [.DELETE_ATTR n]
+  | .tuple ts, pc => compDs ts pc
+def compDs : DelTargets → Nat → List Instr
+  | .nil, _ => []
+  | .cons t ts, pc => compD t pc ++ compDs ts (pc + sizeD t)
 end
 
 /-- `for i, target := range Targets { if i != len-1 { DUP_TOP }; Expr(target) }` over the
@@ -175,6 +239,8 @@ def sizeS : Stmt → Nat
   | .expr (.const (.int _)) => 0
   | .expr (.const (.str _)) => 0
   | .expr e => size e + 1
+  | .del ts => sizeDs ts
+  | .funcdef _ _ ds kds _ => sizes ds + sizeKWs kds + 4
 
 /-- `compiler.Stmt` for Assign, AugAssign (AugLoad / AugStore contexts), ExprStmt -/
 def compS : Stmt → Nat → List Instr
@@ -193,6 +259,31 @@ def compS : Stmt → Nat → List Instr
   | .expr (.const (.int _)), _ => []          -- case *ast.Num: (nothing emitted)
   | .expr (.const (.str _)), _ => []          -- case *ast.Str:
   | .expr e, pc => compE e pc ++ [.POP_TOP]
+  | .del ts, pc => compDs ts pc
+  | .funcdef name sg ds kds body, pc =>
+      -- compileFunc(...); NameOp(name, Store)
+      compEs ds pc ++ compKWs kds (pc + sizes ds)
+        ++ [.LOAD_CODE name sg body, .LOAD_CONST (.str name), .MAKE_FUNCTION ds.length kds.length,
+            .STORE_NAME name]
+
+/-! ### code objects of functions
+
+The body of a lambda / def is compiled by the same `Expr` in a FunctionBlock scope:
+`NameOp` then emits LOAD_FAST for a parameter (ScopeLocal) and LOAD_GLOBAL for any
+other name (ScopeGlobalImplicit) where the module scope emits LOAD_NAME.  (Bodies in
+which a nested function captures a parameter – LOAD_CLOSURE / LOAD_DEREF – are outside
+the fragment.) -/
+
+/-- `NameOp` in function scope -/
+def resolve (ps : List String) : Instr → Instr
+  | .LOAD_NAME n => if ps.contains n then .LOAD_FAST n else .LOAD_GLOBAL n
+  | i => i
+
+/-- the code of `lambda sg: body` (`Expr(body)`; value on the stack ⇒ `RETURN_VALUE` appended)
+and of `def name(sg): return body` (`Expr(body); RETURN_VALUE`; compileAst appends nothing
+because the code `EndsWithReturn`) -/
+def compBody (_name : String) (sg : Sig) (body : Expr) : List Instr :=
+  (compE body 0).map (resolve sg.names) ++ [.RETURN_VALUE]
 
 def sizeProg : List Stmt → Nat
   | [] => 0
@@ -229,13 +320,30 @@ variable {V X W : Type} (P : Prims V X W)
   | .ok _ w => .next (pc + 1) s w
   | .err x w => .raise x w
 
+/-- `[k1, v1, k2, v2, …]` ↦ `[(k1, v1), (k2, v2), …]` (the name/value pairs below a
+MAKE_FUNCTION / CALL_FUNCTION, deepest first) -/
+def pairs : List V → List (V × V)
+  | k :: v :: r => (k, v) :: pairs r
+  | _ => []
+
+/-- `if flag { x := POP() }` -/
+def popIf (flag : Bool) (s : List V) : Option (Option V × List V) :=
+  if flag then
+    match s with
+    | v :: s' => some (some v, s')
+    | [] => none
+  else some (none, s)
+
 /-- the `do_*` functions; the stack is a list with TOS first -/
 def exec (i : Instr) (pc : Nat) (s : List V) (w : W) : Outcome V X W :=
   match i, s with
   | .LOAD_CONST c, s => .next (pc + 1) (P.const c :: s) w
-  | .LOAD_CODE b, s => .next (pc + 1) (P.codeObj b :: s) w
+  | .LOAD_CODE nm sg b, s => .next (pc + 1) (P.codeObj nm sg b :: s) w
   | .LOAD_NAME n, s => push pc s (P.loadName n w)
+  | .LOAD_FAST n, s => push pc s (P.loadFast n w)
+  | .LOAD_GLOBAL n, s => push pc s (P.loadGlobal n w)
   | .STORE_NAME n, v :: s => done pc s (P.storeName n v w)
+  | .DELETE_NAME n, s => done pc s (P.delName n w)
   -- b := vm.POP(); a := vm.TOP(); setTopAndCheckErr(py.Op(a, b))
   | .BINARY op, b :: a :: s => push pc s (P.binop op a b w)
   | .INPLACE op, b :: a :: s => push pc s (P.inplace op a b w)
@@ -262,6 +370,9 @@ def exec (i : Instr) (pc : Nat) (s : List V) (w : W) : Outcome V X W :=
   | .BINARY_SUBSCR, b :: a :: s => push pc s (P.getitem a b w)
   -- w := TOP; v := SECOND; u := THIRD; v[w] = u
   | .STORE_SUBSCR, k :: c :: u :: s => done pc s (P.setitem c k u w)
+  -- sub := TOP; container := SECOND; DROPN(2); del container[sub]
+  | .DELETE_SUBSCR, k :: c :: s => done pc s (P.delitem c k w)
+  | .DELETE_ATTR n, o :: s => done pc s (P.delattr o n w)
   | .LOAD_ATTR n, a :: s => push pc s (P.getattr a n w)
   -- v := TOP; u := SECOND; v.name = u
   | .STORE_ATTR n, o :: u :: s => done pc s (P.setattr o n u w)
@@ -272,6 +383,22 @@ def exec (i : Instr) (pc : Nat) (s : List V) (w : W) : Outcome V X W :=
         | f :: rest => push pc rest (P.call f (s.take n).reverse w)
         | [] => .fault
       else .fault
+  -- do_CALL_FUNCTION_VAR_KW: kwargs := POP; args := POP; Vm.Call: kwargsTuple := Stack[len-2*nk:],
+  -- args := the na below, fn below them
+  | .CALL_FUNCTION_EX na nk st ds, s =>
+      match popIf ds s with
+      | none => .fault
+      | some (dv, s1) =>
+        match popIf st s1 with
+        | none => .fault
+        | some (sv, s2) =>
+          if 2 * nk + na + 1 ≤ s2.length then
+            match (s2.drop (2 * nk)).drop na with
+            | f :: rest =>
+                push pc rest (P.callEx f ((s2.drop (2 * nk)).take na).reverse
+                  (pairs (s2.take (2 * nk)).reverse) sv dv w)
+            | [] => .fault
+          else .fault
   | .BUILD_TUPLE n, s =>
       if n ≤ s.length then push pc (s.drop n) (P.mkTuple (s.take n).reverse w) else .fault
   | .BUILD_LIST n, s =>
@@ -279,15 +406,27 @@ def exec (i : Instr) (pc : Nat) (s : List V) (w : W) : Outcome V X W :=
   | .BUILD_SET n, s =>
       if n ≤ s.length then push pc (s.drop n) (P.mkSet (s.take n).reverse w) else .fault
   -- argc = 2: stop := POP; start := TOP
-  | .BUILD_SLICE _, stop :: start :: s => push pc s (P.mkSlice start stop w)
+  | .BUILD_SLICE 2, stop :: start :: s => push pc s (P.mkSlice start stop w)
+  -- argc = 3: step := POP; stop := POP; start := TOP   (any other argc: Go panic)
+  | .BUILD_SLICE 3, step :: stop :: start :: s => push pc s (P.mkSlice3 start stop step w)
   | .BUILD_MAP _, s => push pc s (P.newDict w)
   -- key := TOP; value := SECOND; dict := THIRD; DROPN(2)
   | .STORE_MAP, k :: v :: d :: s => done pc (d :: s) (P.dictSet d k v w)
-  -- qualname := POP; code := POP
-  | .MAKE_FUNCTION _, q :: c :: s => push pc s (P.mkFunction c q w)
+  -- _make_function: qualname := POP; code := POP; kwdefaults times { v := POP; key := POP };
+  -- posdefaults times { defs[i] = POP } (last default on top)
+  | .MAKE_FUNCTION np nk, q :: c :: s =>
+      if 2 * nk + np ≤ s.length then
+        push pc ((s.drop (2 * nk)).drop np)
+          (P.mkFunction c q ((s.drop (2 * nk)).take np).reverse (pairs (s.take (2 * nk)).reverse) w)
+      else .fault
   -- it := POP; EXTEND_REVERSED(items)
   | .UNPACK_SEQUENCE n, v :: s =>
       match P.unpack n v w with
+      | .ok vs w' => .next (pc + 1) (vs ++ s) w'
+      | .err x w' => .raise x w'
+  -- seq := POP; unpack_iterable writes the items so that the first is on top
+  | .UNPACK_EX b a, v :: s =>
+      match P.unpackEx b a v w with
       | .ok vs w' => .next (pc + 1) (vs ++ s) w'
       | .err x w' => .raise x w'
   | .RETURN_VALUE, v :: _ => .ret v w
